@@ -47,7 +47,7 @@ func runStartFault(w *tr.Writer, seed uint64, idx int) {
 	proto := rnd.PickS([]string{"tcp", "tcp", "unix", "udp"})
 	loops := rnd.Range(1, 3)
 	reuseport := rnd.Chance(50)
-	client := rnd.Chance(25)
+	client := rnd.Chance(30)
 	name := rnd.PickS([]string{"epoll_create1", "eventfd", "epoll_ctl", "socket"})
 	index := rnd.Intn(2*loops + 3)
 	if name == "socket" {
@@ -59,7 +59,12 @@ func runStartFault(w *tr.Writer, seed uint64, idx int) {
 		name, index = "keepalive", 0
 	}
 	kind := rnd.PickS([]string{"emfile", "enomem"})
-	stopAfterFailedStart := rnd.Chance(50)
+	stopAfterFailedStart := rnd.Chance(75)
+	if client {
+		// a client creates no sockets when it starts: the calls that can fail are those of its pollers, one set per loop
+		name = rnd.PickS([]string{"epoll_create1", "eventfd", "epoll_ctl"})
+		index = rnd.Intn(loops + 1)
+	}
 
 	rec := newRecorder()
 	rec.ledgerOn = true
